@@ -196,6 +196,8 @@ def build():
     return r['rc'] == 0 and os.path.exists(VW)
 
 
+XLEAF_TYPES = {'leaf_parse_key': 'ukey', 'leaf_parse_type': 'utype', 'leaf_parse_attribute': 'uattr', 'leaf_parse_tkey': 'tkey',
+               'leaf_parse_tvalue': 'tvalue', 'leaf_parse_value': 'private'}
 LEAF_TYPES = {'leaf_language_from_bytes': 'language', 'leaf_script_from_bytes': 'script', 'leaf_region_from_bytes': 'region',
               'leaf_variant_from_bytes': 'variant'}
 
@@ -207,6 +209,8 @@ def run_input(prop, rp):
     inp = rp['input']
     if inp.get('kind') == 'bytes' and inp.get('harness') in LEAF_TYPES:
         cmd = [VW, 'leaf', LEAF_TYPES[inp['harness']], inp['hex']]
+    elif inp.get('kind') == 'bytes' and inp.get('harness') in XLEAF_TYPES:
+        cmd = [VW, 'xleaf', XLEAF_TYPES[inp['harness']], inp['hex']]
     elif inp.get('kind') == 'lsr':
         o = lambda v: '-' if v is None else str(v)
         r = common.run([VW, 'lsr', o(inp['l']), o(inp['s']), o(inp['r'])], timeout=120)
